@@ -58,6 +58,25 @@ def showLoopRes : LoopRes → String
 
 def ints (ws : List String) : Option (List Int) := ws.mapM String.toInt?
 
+/-- `srloop|srorig G BOUND GI K (i0 st)*K ND (base m c)*ND FUEL` -/
+def srAnswer (opt : Bool) (ws : List String) : String :=
+  match ws with
+  | g :: b :: gi :: k :: rest =>
+    match guardOf g, b.toInt?, gi.toNat?, k.toNat?, ints rest with
+    | some g, some b, some gi, some k, some xs =>
+      let ivs := (List.range k).map fun t => (xs.getD (2 * t) 0, xs.getD (2 * t + 1) 0)
+      let r := xs.drop (2 * k)
+      let nd := (r.getD 0 0).toNat
+      let ds := (List.range nd).map fun t =>
+        ({ base := (r.getD (1 + 3 * t) 0).toNat, m := r.getD (2 + 3 * t) 0, c := r.getD (3 + 3 * t) 0 } : Derived)
+      let fuel := (r.getD (1 + 3 * nd) 0).toNat
+      let L : MultiLoop := { ivs := ivs, gi := gi, g := g, bound := b, ds := ds }
+      match (if opt then runMultiOpt L fuel else runMultiOrig L fuel) with
+      | some p => "out " ++ (if p.isEmpty then "-" else ",".intercalate (p.map toString))
+      | none => "fuel"
+    | _, _, _, _, _ => "bad-line"
+  | _ => "bad-line"
+
 def step (_ : Unit) (line : String) : Unit × String :=
   let ans : String :=
     match words line with
@@ -112,6 +131,8 @@ def step (_ : Unit) (line : String) : Unit × String :=
         | .panic => "panic"
         | .keep => "stmt " ++ showTriple (flexUnwrapped o (opdToExpr a) (opdToExpr b))
       | _, _, _ => "bad-line"
+    | "srloop" :: rest => srAnswer true rest
+    | "srorig" :: rest => srAnswer false rest
     | [kind, g, i0, st, b, m, c, fuel] =>
       match guardOf g, ints [i0, st, b, m, c], fuel.toNat? with
       | some g, some [i0, st, b, m, c], some fuel =>
